@@ -196,6 +196,11 @@ def run_case(case, prefix=None):
     sim = Sim()
     # the lite driver is documented as not compatible with the non-plus variant
     chip = Chip(sim, Medium(sim), "D", plus=bool(case.get("plus", True)) or lite)
+    if case.get("warm") is not None:
+        # the MCU was reset while the radio kept its supply: the driver is constructed on a chip that still holds another
+        # program's configuration, FIFO contents and latched flags
+        chip.warm_start(case["warm"])
+        res.label("warm-start")
     r = mk_radio(case.get("drv", "full"), chip)
     snap = chip.regfile()
     if not lite:
@@ -461,6 +466,7 @@ def strategy(drv="full"):
             st.tuples(st.just("load_ack"), st.binary(max_size=34).map(lambda b: {"t": "bytes", "v": b.hex()}), pipe)]]
     return st.fixed_dictionaries({
         "drv": st.just(drv), "plus": st.sampled_from([True, True, True, False]),
+        "warm": st.one_of(st.none(), st.none(), st.integers(0, 1 << 20)),
         "ops": st.lists(st.one_of(*ops).map(list), min_size=1, max_size=40).map(lambda o: o + (TAIL[1:2] if lite else TAIL)),
     })
 
